@@ -160,10 +160,67 @@ def run(ctx):
                           what=(f"{cls}: " + "; ".join(errs)) if errs else f"{cls}.{m}: model {line[:120]} != implementation {str(imp)[:120]}",
                           case=dict(spec=spec, method=m, x=[fhex(v) for v in np.ravel(x)]), found_input=bool(errs), unit=u.name,
                           expected=line[:300], observed=str(imp)[:300], broken="correspondence leaf-logdet-tie / Props/C02.v theorems of this leaf")
+    float32_pass(ctx, jobs, outs)
     flows_oracle(ctx)
     from harness import autoreg
     autoreg.run_units(ctx, theorems=False)  # real MaskedAutoregressive / Coupling layers vs Model/AutoregNet.v (log-dets, autodiff oracle)
     ctx.assumptions += ["autodiff (jax.jacobian in float64) is the reference of the search oracle", "float saturation excluded (non-finite outputs skipped)"]
+
+
+def float32_pass(ctx, jobs, outs):
+    """The same leaf log-dets in JAX's default float32 mode (separate process) against the float64 model values: a formula that is
+    algebraically right but loses precision or overflows in single precision (seeded change C02d) shows here.  Splines are left
+    out (ill-conditioned bins amplify float32 rounding beyond any fixed tolerance)."""
+    import json as _json
+    import os
+    import subprocess
+    import sys as _sys
+
+    from harness import common
+
+    u = ctx.unit("leaf-logdet-float32", "transform_and_log_det / inverse_and_log_det of the non-spline leaves in float32 (jax_enable_x64 off, separate process) vs the "
+                                        "float64 model: values and log-det within 5e-4*max(1,|v|) (+ float32 input rounding), same inf/nan classes; |x| <= 40")
+    sel = [(i, j) for i, j in enumerate(jobs) if j[0]["kind"] != "rqs" and np.all(np.abs(np.asarray(j[3], dtype=float)) <= 40.0)
+           and np.all(np.isfinite(np.asarray(j[3], dtype=float)))]
+    if ctx.quick:
+        sel = sel[:: max(1, len(sel) // 400)]
+    env = dict(os.environ, VERIF_REPO=common.REPO, JAX_PLATFORMS="cpu")
+    env.pop("JAX_ENABLE_X64", None)
+    inp = "\n".join(_json.dumps(dict(spec=j[0], method=j[2], x=[fhex(v) for v in np.ravel(j[3])])) for _, j in sel) + "\n"
+    r = subprocess.run([_sys.executable, os.path.join(common.VERIF, "harness", "leaves_f32.py")], input=inp, capture_output=True, text=True, timeout=1200, env=env, cwd=common.REPO)
+    rows = [_json.loads(l) for l in r.stdout.splitlines() if l.startswith("{")]
+    if len(rows) != len(sel):
+        ctx.violation(sig="float32-pass:crashed", what=f"float32 process returned {len(rows)} of {len(sel)} results: {r.stderr[-300:]}", case=dict(unit=u.name), found_input=False,
+                      unit=u.name, broken="leaf-logdet-float32")
+        return
+
+    def ok(a, b, scale):
+        if a is None or b is None:
+            return a is None and b is None
+        if np.isnan(a) or np.isnan(b):
+            return bool(np.isnan(a) and np.isnan(b))
+        if np.isinf(a) or np.isinf(b):
+            return a == b or abs(b) > 1e37  # float32 overflows where float64 does not
+        return abs(a - b) <= 5e-4 * max(1.0, abs(b)) * scale
+
+    for (i, (spec, obj, m, x)), row in zip(sel, rows):
+        u.count((str(spec), m, [fhex(v) for v in np.ravel(x)]), tag=f"{spec['kind']}:{m}")
+        mod = lv.parse_model(outs[i])
+        if "err" in row or mod[0] == "ERR":
+            continue
+        # the float32 input differs from x by rounding: allow for the map's sensitivity through a generous factor on ill-scaled leaves
+        scale = 1.0 + (40.0 if spec["kind"] in ("tri", "planar") else 0.0)
+        x32 = np.asarray(np.asarray(x, dtype=np.float32), dtype=float)
+        if not np.allclose(x32, np.asarray(x, dtype=float), rtol=1e-6, atol=1e-30):
+            continue
+        bad = (len(row["y"]) != len(mod[0])) or not all(ok(a, b, scale) for a, b in zip(row["y"], mod[0])) or not ok(row["ld"], mod[1], scale)
+        if bad and m == "fwdld" and row["ld"] is not None and mod[1] is not None and np.isfinite(mod[1]):
+            cls = type(obj).__name__
+            ctx.violation(sig=f"{cls}.{m}:float32", what=f"{cls}.{m} in float32 at x = {np.ravel(x).tolist()}: value/log_det {str(row)[:120]} but the exact (float64 model) result is {outs[i][:120]}: "
+                          f"off by more than 5e-4 relative (float32 resolution is 1e-7)", case=dict(spec=spec, method=m, x=[fhex(v) for v in np.ravel(x)], mode="float32"),
+                          found_input=True, unit=u.name, expected=outs[i][:200], observed=str(row)[:200], broken="leaf-logdet-float32")
+        elif bad:
+            ctx.notes.append(f"float32 pass: {type(obj).__name__}.{m} differs from the float64 model beyond 5e-4 at x = {np.ravel(x).tolist()[:3]} (inverse direction / conditioning; not reported)")
 
 
 def flows_oracle(ctx):
